@@ -28,6 +28,7 @@ class Check:
         self.t0 = time.time()
         self.violations = 0
         self.known_hits = {}
+        self._seen_keys = {}
         self.findings = load_findings(pid)
         self.cov = {}
         self.samples = []
@@ -86,6 +87,10 @@ class Check:
                 print("KNOWN-FINDING: property=%s %s" % (self.pid, f.get("what", fid)), flush=True)
             self.known_hits[fid] += 1
             return False
+        if key in self._seen_keys:
+            self._seen_keys[key] += 1
+            return True
+        self._seen_keys[key] = 1
         self.violations += 1
         if self.violations <= self.max_violation_reports:
             path = os.path.join(REPLAYS, "%s-%d.json" % (self.pid, self.violations))
